@@ -294,10 +294,20 @@ func (e *Env) controller(kind string) reconciler {
 		return objectdeployments.NewObjectDeploymentController(e.Client, log, Scheme)
 	case CtrlClusterObjectDeploy:
 		return objectdeployments.NewClusterObjectDeploymentController(e.Client, log, Scheme)
-	case CtrlObjectTemplate:
-		return objecttemplate.NewObjectTemplateController(e.Client, e.Uncached, log, e.Cache, Scheme, Mapper, objecttemplate.ControllerConfig{})
-	case CtrlClusterObjectTemplate:
-		return objecttemplate.NewClusterObjectTemplateController(e.Client, e.Uncached, log, e.Cache, Scheme, Mapper, objecttemplate.ControllerConfig{})
+	case CtrlObjectTemplate, CtrlClusterObjectTemplate:
+		var c *objecttemplate.GenericObjectTemplateController
+		if kind == CtrlObjectTemplate {
+			c = objecttemplate.NewObjectTemplateController(e.Client, e.Uncached, log, e.Cache, Scheme, Mapper, objecttemplate.ControllerConfig{})
+		} else {
+			c = objecttemplate.NewClusterObjectTemplateController(e.Client, e.Uncached, log, e.Cache, Scheme, Mapper, objecttemplate.ControllerConfig{})
+		}
+		// the environment manager always sets an environment before controllers run
+		env := manifests.PackageEnvironment{Kubernetes: manifests.PackageEnvironmentKubernetes{Version: "v1.27.0"}}
+		if e.W.Pkg != nil {
+			env = e.W.Pkg.Env
+		}
+		c.SetEnvironment(&env)
+		return c
 	case CtrlPackage:
 		if e.W.Pkg == nil {
 			panic("world: Package controller needs World.Pkg")
